@@ -244,4 +244,19 @@ PROPS = {
         "assumptions": ["no port of the geodesic series exists in the model; theorems cover the plane algebra and the decision logic"],
         "partial_notes": ["projection round-trip accuracy, convergence of the Newton / re-centring iterations and the millimetre bound are sampled only"],
     },
+    "C20": {
+        "props": "TrackVerif.CLI.PropsC20",
+        "streams": [("CL", 150, 3000)],
+        "clauses": ["cl.precedence", "cl.config_search", "cl.exit_status", "cl.silent_failure", "cl.spurious_failure", "cl.pipeline", "cl.output_target", "cl.laptimes", "cl.no_crash", "cl.no_hang", "cl.model_vs_spec"],
+        "rule": "the tracktools binary is built from /repo's working tree and run in a scratch directory with HOME redirected: commands convert / gopro convert / gopro laptimes / gopro render; every flag independently given or not "
+                "(incl. empty values and repeated --tags), config file explicit (--config), ./.tracktools.toml, $HOME/.tracktools.toml, both (cwd must win), none (embedded default) or an explicit file that does not exist; config content states "
+                "each option with probability 3/5 (TOML integers into float fields, nested Start table, foreign sections, unknown keys); the effective options are read from the binary's own 'Loaded config' trace line and compared with the Lean model = spec; "
+                "convert: generated TrackAddict logs (or garbage) via file or stdin, output to file or stdout, bytes compared with the library pipeline run on the effective options, unknown decoder/encoder names and undecodable input must exit non-zero with a message; "
+                "laptimes: synthetic GoPro MP4 with GPS5 readings on a grid around the start point, reported hits compared with OnLine on the line built from centre, bearing +/- 90 and distance",
+        "trusted_base": KERNEL + TIE + ["cobra/pflag flag parsing, viper TOML loading / key lower-casing / file search and mapstructure decoding are libraries: their behaviour is what the harness observes on the built binary, the model states it",
+                                        "the effective options are taken from the binary's trace log line (fmt %#v of the command struct after loadConfig)",
+                                        "gopro render's image output and gopro convert's ffmpeg run are not exercised (only their option resolution)"],
+        "assumptions": ["'built-in default' = the flag's zero default when a config file is used, the embedded .tracktools.toml when no config file exists"],
+        "partial_notes": ["the precedence theorem is about the model of loadConfig; pipeline equality, exit statuses and the lap-line report are decided per run on the binary"],
+    },
 }
